@@ -4,9 +4,12 @@
 \* The harness (harness/regex_nfa.py) turns every compiled regex of the working tree into an
 \* epsilon-free *multi-edge* NFA: states 1..N (1 = start) are pairs <Thompson state, constraint on the
 \* next character> (fixed-length look-aheads become such constraints), classes 1..K are the minterms of
-\* the pattern's character sets, and every edge carries an identifier 1..M that encodes the epsilon
-\* route taken to the consuming transition.  Two edges q -c-> q' with different identifiers are two
-\* different ways for a backtracking matcher to consume c; that is what makes (x+)* visible.
+\* the pattern's character sets, and every edge is identified by the epsilon route taken to the consuming
+\* transition.  Two edges q -c-> q' with different routes are two different ways for a backtracking
+\* matcher to consume c; that is what makes (x+)* visible.  Only "one route or several" matters below,
+\* so parallel edges are passed as one bundle <<target, m>> with m = 2 when there are two or more
+\* routes, m = 1 otherwise (the harness keeps the individual edge identifiers and re-validates every
+\* witness with them).
 \*
 \* A backtracking matcher needs exponential time on  prefix . pump^n . kill  exactly when the automaton
 \* is exponentially ambiguous (Weber and Seidl 1991): some state a has two different paths a -w-> a
@@ -25,42 +28,35 @@ EXTENDS Naturals, FiniteSets, Sequences
 
 CONSTANTS N,        \* number of states
           K,        \* number of character classes
-          M,        \* number of edges of the full automaton (identifiers are 1..M)
-          Out,      \* Out[q] = set of <<class, target, edge id>>, q \in 1..N
+          Out,      \* Out[q][c] = set of <<target, m>>: the edges q -c-> target, m = min(2, number of routes)
           Anchors   \* subset of 1..N
 
 VARIABLES a, p1, p2, dv
 vars == <<a, p1, p2, dv>>
 
-Cls(e) == e[1]
-To(e)  == e[2]
-Id(e)  == e[3]
-
-AllEdges == UNION {Out[q] : q \in 1..N}
+To(e)   == e[1]
+Mult(e) == e[2]
 
 \* ---- well-formedness of what the harness generated (checked by TLC before the search) ----
-ASSUME N \in Nat /\ K \in Nat /\ M \in Nat /\ N >= 1
+ASSUME N \in Nat /\ K \in Nat /\ N >= 1
 ASSUME DOMAIN Out = 1..N
-ASSUME \A q \in 1..N : \A e \in Out[q] : Cls(e) \in 1..K /\ To(e) \in 1..N /\ Id(e) \in 1..M
+ASSUME \A q \in 1..N : DOMAIN Out[q] = 1..K
+ASSUME \A q \in 1..N : \A c \in 1..K : \A e \in Out[q][c] : To(e) \in 1..N /\ Mult(e) \in {1, 2}
+\* one bundle per <source, class, target>
+ASSUME \A q \in 1..N : \A c \in 1..K : \A e1, e2 \in Out[q][c] : To(e1) = To(e2) => e1 = e2
 ASSUME Anchors \subseteq 1..N
-\* an identifier names one edge: as many identifiers as <source, edge> pairs
-ASSUME Cardinality({Id(e) : e \in AllEdges}) =
-       Cardinality(UNION {{<<q, e>> : e \in Out[q]} : q \in 1..N})
-
-\* the automaton is deterministic on its loop edges: then nothing below can ever diverge
-Deterministic == \A q \in 1..N : \A e1, e2 \in Out[q] : Cls(e1) = Cls(e2) => e1 = e2
 
 Init == /\ a \in Anchors
         /\ p1 = a
         /\ p2 = a
         /\ dv = FALSE
 
-\* both copies consume one character of the same class
-Step == \E e1 \in Out[p1] : \E e2 \in Out[p2] :
-          /\ Cls(e1) = Cls(e2)
+\* both copies consume one character of the same class; they diverge when they take different edges:
+\* different targets, or the same bundle when it stands for several routes
+Step == \E c \in 1..K : \E e1 \in Out[p1][c] : \E e2 \in Out[p2][c] :
           /\ p1' = To(e1)
           /\ p2' = To(e2)
-          /\ dv' = (dv \/ Id(e1) # Id(e2))
+          /\ dv' = (dv \/ To(e1) # To(e2) \/ Mult(e1) = 2)
           /\ a' = a
 
 Next == Step
@@ -69,11 +65,9 @@ Spec == Init /\ [][Next]_vars
 
 TypeOK == a \in Anchors /\ p1 \in 1..N /\ p2 \in 1..N /\ dv \in BOOLEAN
 
-\* design-level sanity of the product itself:
-\* while the copies have not diverged they are in the same state ...
+\* design-level sanity of the product itself: while the copies have not diverged they are in the same
+\* state (so "p1 # p2" never has to be tested in Step)
 SameUntilDiverged == ~dv => p1 = p2
-\* ... and a deterministic automaton never diverges
-DetNoDiv == (SameUntilDiverged) /\ (Deterministic => ~dv)
 
 \* T-NoEDA
 NoEDA == ~(dv /\ p1 = a /\ p2 = a)
